@@ -17,10 +17,10 @@ RULE = ('case = one operation of the real Term/Type API on generated well-typed 
 ASSUMPTIONS = ['reference operations in vf/shadow.py (textbook de Bruijn) are the ground truth for syntax',
                'denotation checked in finite models with type-variable domains <= 2 (3 when small)',
                'id recycling is probabilistic: evidence counter churn_comparisons says how many were tried']
-REQUIRED = {'quick': {'eq_checks': 5000, 'hash_checks': 2000, 'op:subst': 500, 'op:subst_type': 500, 'op:subst_bound': 500,
+REQUIRED = {'quick': {'subobject_hash_checks': 5000, 'eq_checks': 5000, 'hash_checks': 2000, 'op:subst': 500, 'op:subst_type': 500, 'op:subst_bound': 500,
                       'op:beta_norm': 500, 'op:abstract_over': 500, 'op:incr_boundvars': 300, 'sem_checks': 300,
                       'churn_comparisons': 100000, 'order_triples': 1000, 'type_ops': 1000, 'shared_open_object_two_depths': 120, 'shared_object_abstracted_at_two_depths': 300},
-            'thorough': {'eq_checks': 100000, 'hash_checks': 40000, 'op:subst': 10000, 'op:subst_type': 10000,
+            'thorough': {'subobject_hash_checks': 100000, 'eq_checks': 100000, 'hash_checks': 40000, 'op:subst': 10000, 'op:subst_type': 10000,
                          'op:subst_bound': 10000, 'op:beta_norm': 10000, 'op:abstract_over': 10000,
                          'op:incr_boundvars': 6000, 'sem_checks': 6000, 'churn_comparisons': 3000000,
                          'order_triples': 20000, 'type_ops': 20000, 'shared_open_object_two_depths': 3000, 'shared_object_abstracted_at_two_depths': 3000}}
@@ -177,6 +177,44 @@ def one_round(ctx, rng):
         t2, r2 = build(rng, sv)
         check_eq(ctx, t, s, t2, sv, '%s/%s-vs-%s' % (variant, route, r2))
     ctx.case(('eq', S.alpha(s)), nontrivial=nt)
+    # ---- A2. sub-objects of a term that was hashed as a whole (hashing caches a value in every node it walks:
+    #      a node must get the hash it would get when hashed on its own), incl. right-nested conj / disj chains
+    def sub_objects(x, acc, limit=10):
+        if len(acc) >= limit:
+            return
+        if x.is_comb():
+            for y in (x.arg, x.fun):
+                if y.is_comb() or y.is_abs():
+                    acc.append(y)
+                sub_objects(y, acc, limit)
+        elif x.is_abs():
+            if x.body.is_comb() or x.body.is_abs():
+                acc.append(x.body)
+            sub_objects(x.body, acc, limit)
+    members = [g.gen(S.BOOL, rng.choice([0, 1, 1, 2])) for _ in range(rng.choice([3, 3, 4, 5]))]
+    opn = rng.choice(['conj', 'disj'])
+    OP = ('const', opn, S.funs(S.BOOL, S.BOOL, S.BOOL))
+    chain = members[-1]
+    for m_ in reversed(members[:-1]):
+        chain = S.mk_comb(OP, m_, chain)
+    for whole_s, tag in ((chain, 'chain'), (s, 'term')):
+        whole, r_w = build(rng, whole_s, rng.choice(['ctor', 'shared']))
+        order = rng.choice(['parent-first', 'parts-first'])
+        subs = []
+        sub_objects(whole, subs)
+        fresh = [(S.tm_shadow(x), None) for x in subs]
+        fresh = [(sh_, S.to_repo_term(sh_)) for sh_, _ in fresh]
+        try:
+            if order == 'parts-first':
+                for _, f_ in fresh:
+                    hash(f_)
+            hash(whole)
+        except Exception as e:
+            ctx.count('hash_raised:' + type(e).__name__)
+            continue
+        for x, (sh_, f_) in zip(subs, fresh):
+            ctx.count('subobject_hash_checks')
+            check_eq(ctx, x, sh_, f_, sh_, 'sub-object-of-hashed-%s/%s' % (tag, order))
     # ---- B1. subst_type
     tvs = [v for v in S.term_type_vars(s) if v[0] == 'stv']
     ti = {v[1]: g.rand_type() for v in tvs if rng.random() < 0.8}
